@@ -446,8 +446,8 @@ static int main_(int argc, char ** argv)
     for (long i = 0; i < n; ++i) {
       const int st   = static_cast<int>(i % kNumThetaStrata);
       const int tcls = static_cast<int>(i / kNumThetaStrata) % 3;
-      auto av        = gen.tangent(c.rng, st, tcls, static_cast<int>(i / (3 * kNumThetaStrata)) % 4);
-      const bool inv_ok = st <= 8;  // theta <= pi - 1e-3
+      const bool inv_ok = st <= 8;  // theta <= pi - 1e-3 (for every rotating part)
+      auto av        = gen.tangent(c.rng, st, tcls, static_cast<int>(i / (3 * kNumThetaStrata)) % 4, inv_ok ? 9 : kNumThetaStrata - 1);
       if (second) {
         if (st <= 8) c05_case(c, av, inv_ok);
       } else {
@@ -457,7 +457,7 @@ static int main_(int argc, char ** argv)
     const int ppd = second ? (n >= 200 ? 10 : 2) : (n >= 400 ? 40 : 5);
     for (int k = 0; k <= 10 * ppd; ++k) {
       const double th = std::pow(10.0, -12.0 + static_cast<double>(k) / ppd);
-      auto av         = gen.tangent_theta(c.rng, th, 1 + (k % 2), k % 4);
+      auto av         = gen.tangent_theta(c.rng, th, 1 + (k % 2), k % 4, 9);
       if (second) c05_case(c, av, true);
       else c04_case(c, av, true);
     }
